@@ -1130,3 +1130,11 @@ M("C07-conditional-truncates-condition", "C07", "src/cppparser/cppExpression.cxx
 M("C07-generator-as-integer-of-error-result", "C07", "src/interrogate/interfaceMakerPythonNative.cxx",
   "            CPPExpression::Result bounds = array_type->_bounds->evaluate();\n            if (bounds._type == CPPExpression::RT_integer) {\n              array_len = bounds.as_integer();\n            }", "            array_len = array_type->_bounds->evaluate().as_integer();",
   expect="R07.6|write_function_instance|as_integer-of-untested-result")
+
+M("C10-getter-description-strips-initializer", "C10", "src/interrogate/interrogateBuilder.cxx",
+  "  desc << \"getter for \";\n  if (element != nullptr) {\n    // Describe the element without its default value, but leave the parsed\n    // declaration as it was: is_default_constructible() looks at it later.\n    CPPExpression *initializer = element->_initializer;\n    element->_initializer = nullptr;\n    element->output(desc, 0, &parser, false);\n    element->_initializer = initializer;",
+  "  desc << \"getter for \";\n  if (element != nullptr) {\n    element->_initializer = nullptr;\n    element->output(desc, 0, &parser, false);",
+  expect="R10.5|InterrogateBuilder::get_getter|_initializer|restored")
+M("C10-const-member-ignored", "C10", "src/cppparser/cppStructType.cxx",
+  "      if (member_ctor == nullptr ||\n          (member_ctor->_storage_class & CPPInstance::SC_defaulted) != 0) {\n        return false;\n      }", "      if (member_ctor == nullptr ||\n          (member_ctor->_storage_class & CPPInstance::SC_defaulted) != 0) {\n        continue;\n      }",
+  expect="R10.1|is_default_constructible|M:const-without-initializer")
